@@ -295,6 +295,8 @@ class SymBuilder(BuilderBase):
   def raw_new(self, cls, **fields):
     """allocate an instance without running __init__"""
     ref = self.st.alloc("obj", cls, dict(fields))
+    from .models import RAW_OIDS
+    RAW_OIDS.add(ref.oid)
     return ref
 
   def set(self, obj, field, value):
